@@ -97,7 +97,7 @@ def make_dummy(height):
 
 
 def build_assembly(A, CT, BT):
-    """A = the specification's design record (types, hs, hd, expl)."""
+    """A = the specification's design record (types, hs, top, hd, expl)."""
     armi_ready()
     from armi.reactor import grids
     from armi.reactor.assemblies import HexAssembly
@@ -107,7 +107,10 @@ def build_assembly(A, CT, BT):
     a.spatialGrid.armiObject = a
     for t, hgt in zip(A["types"], A["hs"]):
         a.add(make_block(t, BT[t], CT, hgt))
-    a.add(make_dummy(A["hd"]))
+    if A.get("top"):
+        a.add(make_block(A["top"], BT[A["top"]], CT, A["hd"]))  # an ordinary block on top (not flagged DUMMY)
+    else:
+        a.add(make_dummy(A["hd"]))
     a.calculateZCoords()
     a.reestablishBlockOrder()
     for b, en in zip(a, A["expl"]):
